@@ -23,7 +23,7 @@ type c05Case struct {
 func init() {
 	engine.Register(&engine.Check{
 		ID: "C05", Level: "exploration",
-		Rule:   "WKT-expressible corpus: per layout XY/XYZ/XYM/XYZM every Point (empty/1), LineString (0,2,3 points), Polygon (0..3 closed rings of 4/5 points, closing point differing in M), MultiPoint (every present/EMPTY pattern of length 0..5, thorough 6), MultiLineString (every sequence of 0..4 (thorough 5) lines of 0/2/3 points), MultiPolygon (every sequence of 0..4 (thorough 5) polygons over {EMPTY, 1 ring, 2 rings, 3 rings}), collections of 0..2 (thorough 3) members over a 9-member menu incl. empty members and nested collections to depth 3, empty collections with a fixed layout; plus a float lattice (+-2^k for all k, +-1 ulp neighbours, 10^k and neighbours, all-ones mantissas, -0) placed in points. (a) wkt.Marshal text parsed by wkt.Unmarshal and by the independent reference reader equals the model bit for bit; (b) every combination of 144 spelling variants (3 cases x 3 whitespace styles x bare/parenthesised multipoint members x attached/detached suffix x 4 number notations) written by the reference writer parses with wkt.Unmarshal to the model. distinct_nontrivial = distinct (geometry, spelling) pairs with at least one coordinate Also: lines that return to their first position in X,Y only or in every ordinate, and the same positions handed to the encoder as a LinearRing (must give the LINESTRING text).",
+		Rule:   "WKT-expressible corpus: per layout XY/XYZ/XYM/XYZM every Point (empty/1), LineString (0,2,3 points), Polygon (0..3 closed rings of 4/5 points, closing point differing in M), MultiPoint (every present/EMPTY pattern of length 0..6, thorough 7), MultiLineString (every sequence of 0..5 (thorough 6) lines of 0/2/3 points), MultiPolygon (every sequence of 0..5 (thorough 6) polygons over {EMPTY, 1 ring, 2 rings, 3 rings}), collections of 0..3 members over a 9-member menu incl. empty members and nested collections to depth 3, empty collections with a fixed layout; plus a float lattice (+-2^k for all k, +-1 ulp neighbours, 10^k and neighbours, all-ones mantissas, -0) placed in points. (a) wkt.Marshal text parsed by wkt.Unmarshal and by the independent reference reader equals the model bit for bit; (b) every combination of 144 spelling variants (3 cases x 3 whitespace styles x bare/parenthesised multipoint members x attached/detached suffix x 4 number notations) written by the reference writer parses with wkt.Unmarshal to the model. distinct_nontrivial = distinct (geometry, spelling) pairs with at least one coordinate Also: lines that return to their first position in X,Y only or in every ordinate, and the same positions handed to the encoder as a LinearRing (must give the LINESTRING text).",
 		Run:    c05Run,
 		Replay: func(c *engine.Ctx, kind string, raw json.RawMessage) { c05Exec(c, decodeCase[c05Case](raw)) },
 		Assumptions: []string{
@@ -52,7 +52,9 @@ func wktPolygon(l geom.Layout, ringSizes []int, f ref.Filler) [][]ref.C {
 	return out
 }
 
-func wktCorpus(thorough bool) []*ref.G {
+// wktCorpus: level 0 = the corpus C06 mutates, 1 = C05 quick, 2 = C05 thorough.
+func wktCorpus(level int) []*ref.G {
+	thorough := level >= 1
 	var out []*ref.G
 	for _, l := range ref.Layouts4 {
 		var simple []*ref.G
@@ -71,10 +73,7 @@ func wktCorpus(thorough bool) []*ref.G {
 		for _, rs := range ref.Seqs([]int{4, 5}, 3) {
 			simple = append(simple, &ref.G{Kind: ref.Polygon, Layout: l, C2: wktPolygon(l, rs, ref.Counter())})
 		}
-		multiLen := 4
-		if thorough {
-			multiLen = 5
-		}
+		multiLen := 4 + level
 		for _, p := range ref.Seqs([]int{0, 1}, multiLen+1) {
 			simple = append(simple, ref.NewMultiPoint(l, p, ref.Counter()))
 		}
@@ -259,7 +258,11 @@ func c05Exec(c *engine.Ctx, cs c05Case) {
 }
 
 func c05Run(c *engine.Ctx) {
-	corpus := wktCorpus(c.Thorough())
+	level := 1
+	if c.Thorough() {
+		level = 2
+	}
+	corpus := wktCorpus(level)
 	c.Note("corpus", len(corpus))
 	styles := ref.AllWKTStyles()
 	c.Note("spellings", len(styles))
@@ -271,7 +274,7 @@ func c05Run(c *engine.Ctx) {
 		}
 	})
 	// float lattice: values placed in XYZM points (4 per point) and as closing ordinates of a ring
-	lat := floatLattice(c.Thorough())
+	lat := floatLattice(true)
 	c.Note("float_lattice", len(lat))
 	var pts []*ref.G
 	for i := 0; i+4 <= len(lat); i += 4 {
